@@ -304,18 +304,27 @@ impl Machine for SeekMachine<'_> {
         }
         if logging {
             let log = toy::log_take();
-            // BelT encrypts the IV once at construction
+            // BelT encrypts the IV to obtain s_0: when (at construction, lazily at first use) and how often (again inside
+            // iv_state()) is the implementation's business, so E(IV) calls are set aside wherever they occur
             let mut calls: Vec<&toy::Call> = log.iter().collect();
             if self.d.mode == "belt" {
-                ensure!(!calls.is_empty() && calls[0].input == self.iv && calls[0].dir == b'E', format!("counter_block_wrong/{name}"), "{}: the first cipher call is not E(IV)", self.d.ty);
-                calls.remove(0);
+                calls.retain(|c| !(c.dir == b'E' && c.input == self.iv));
             }
-            // the expected counter blocks must occur in order among the blocks the cipher received; extra
-            // cipher calls (prefetching, regeneration) are tolerated
+            // every counter block the history needs must have been fed to E, in the order of FIRST need; extra cipher calls
+            // (prefetching, regeneration) are tolerated, and so is serving a block that is needed again (after a seek back)
+            // from memory instead of encrypting it a second time
             let got: Vec<Vec<u8>> = calls.iter().filter(|c| c.dir == b'E').map(|c| c.input.clone()).collect();
             let want: Vec<Vec<u8>> = expect_idx.iter().map(|i| self.counter_block(&c, *i)).collect();
-            if let Err(j) = match_subsequence(&got, &want) {
-                return fail(format!("counter_block_wrong/{name}"), format!("{} [{}]: the counter block for keystream block {} ({}) was never fed to E in order; E received [{}]", self.d.ty, hs(hist), expect_idx[j], short(&want[j]), got.iter().take(6).map(|b| short(b)).collect::<Vec<_>>().join(" ")));
+            let mut first_need: Vec<Vec<u8>> = vec![];
+            let mut first_idx: Vec<u128> = vec![];
+            for (w, i) in want.iter().zip(&expect_idx) {
+                if !first_need.contains(w) {
+                    first_need.push(w.clone());
+                    first_idx.push(*i);
+                }
+            }
+            if let Err(j) = match_subsequence(&got, &first_need) {
+                return fail(format!("counter_block_wrong/{name}"), format!("{} [{}]: the counter block for keystream block {} ({}) was never fed to E in order; E received [{}]", self.d.ty, hs(hist), first_idx[j], short(&first_need[j]), got.iter().take(6).map(|b| short(b)).collect::<Vec<_>>().join(" ")));
             }
             // reuse monitor: one counter block, two different keystream positions
             let mut seen: std::collections::HashMap<&[u8], u128> = Default::default();
